@@ -16,15 +16,15 @@ NOT_APPLICABLE = {
 # property -> (engine, category, technique, text, note, design_ref)
 CLAIMED = {
     'C13': ('slices', 'other', 'abstraction of each dispatch loop to a guarded polynomial recurrence (path-sensitive symbolic execution of the loop body by the shape engine) whose partition properties are checked for every (rows, threads) pair of the bound; ownership rule over worker stores; create/join pairing; worker bounds under dispatcher-established facts',
-            'Decides the partition/ownership/join clauses: for all 10 range-slicing dispatch loops and every (rows, threads) pair up to the bound (thorough: rows 0..40 x threads 1..24, the property quantifier) the worker ranges start at 0, are contiguous, stay within the extent and end at it -- every row is processed by exactly one worker; workers write shared storage only at their own indices; condensed vectors have (n*n-n)/2 cells; threads are joined before their arguments are freed. Numeric agreement with the sequential kernels, metric axioms and bijectivity of the condensed index map are NOT decided.',
+            'Decides the partition/ownership/join clauses: for all 10 range-slicing dispatch loops (running-offset and closed-form block schemes) and every (rows, threads) pair up to the bound (thorough: rows 0..40 x threads 1..24, the property quantifier) the worker ranges start at 0, are contiguous, stay within the extent and end at it -- every row is processed by exactly one worker; workers write shared storage only at their own indices; condensed vectors have (n*n-n)/2 cells; threads are joined before their arguments are freed. Numeric agreement with the sequential kernels, metric axioms and bijectivity of the condensed index map are NOT decided.',
             'Trusted: clang AST; the recurrence extraction of the shape engine; worker contracts of lsv/contracts.json; square_to_condensed_index injective on i < k (assumption).',
             'DESIGN.md 2/E3, 3/C13'),
     'C11': ('shape', 'other', 'symbolic extent/index abstract interpretation of every dense kernel under its frozen conformability contract (rejected-shape baseline), with callee contracts instantiated as caller obligations; three-valued obligations with shape witnesses',
-            'Decides the all-shapes memory/extent clause: for every shape admitted by the kernel\'s contract and own guards (including empty, single-row/column and non-square shapes) every subscript is in range, every internal call is conformable, and the two factors of every product term of a contraction use the same summation index. The numeric value of the kernels, the algebraic laws, ordering by key and the coverage of the inner dimension by unrolled loop + tail are NOT decided.',
+            'Decides the all-shapes memory/extent clause: for every shape admitted by the kernel\'s contract and own guards (including empty, single-row/column and non-square shapes) every subscript is in range, every internal call is conformable, and the two factors of every product term of a contraction use the same summation index; MatrixSort/MatrixReverseSort exchange whole rows exactly when a plain strict comparison of the keys finds them out of order (all pairs visited), so the result is a row permutation ordered by the key; no kernel applies an absolute tolerance to a data-scaled quantity outside the confirmed sites. The numeric value of the kernels, the algebraic laws and the coverage of the inner dimension by unrolled loop + tail are NOT decided.',
             'Trusted: clang AST; lsv/contracts.json (each precondition hand-confirmed with a reason); no aliasing between distinct parameters; LP64.',
             'DESIGN.md 2/E1, 3/C11'),
-    'C12': ('shape', 'other', 'guard-dominance rule for pivots (division by a diagonal element must be tested or preceded by a pivot-row store) plus symbolic extent analysis of the LAPACK wrappers including the documented argument sizes of dgetrf/dgetri/dgesdd/dgeev',
-            'Decides the pivoting-required clause structurally (no elimination ratio divides by an untested, unexchanged diagonal; a running pivot maximum compared with fabs holds magnitudes only) and the buffer clause (raw column-major buffers, IPIV, WORK/LWORK, s/u/vt sizes for square and rectangular input are large enough; conversions stay in range). M M^-1 = I, Penrose conditions, eigen-equations and reconstruction are numeric and NOT decided.',
+    'C12': ('shape', 'other', 'guard-dominance rule for pivots (division by a diagonal element must be tested or preceded by a pivot-row store), zeroed-output typestate for accumulating kernels, plus symbolic extent analysis of the LAPACK wrappers including the documented argument sizes of dgetrf/dgetri/dgesdd/dgeev',
+            'Decides the pivoting-required clause structurally (no elimination ratio divides by an untested, unexchanged diagonal; a running pivot maximum compared with fabs holds magnitudes only) and the buffer clause (raw column-major buffers, IPIV, WORK/LWORK, s/u/vt sizes for square and rectangular input are large enough; conversions stay in range), and the zeroed-output clause: the product kernels only add into their output (derived), and every call in the solvers passes an output zeroed on every path since its last write, so least squares / pseudo-inverse return the solution and not old content + solution. M M^-1 = I, Penrose conditions, eigen-equations and reconstruction are numeric and NOT decided.',
             'Trusted: clang AST; contracts.json; LAPACK writes only within its documented argument sizes (table in lsv/shapecheck.py).',
             'DESIGN.md 2/E1,E7c, 3/C12'),
     'C14': ('shape', 'other', 'symbolic extent/index abstract interpretation (path-sensitive, polynomial shape atoms, row/slot segment heap model, three-valued obligations with shape witnesses) applied to every public container operation from an arbitrary invariant-satisfying state, plus post-invariant, lifetime, deep-copy, slot typestate and written-cell (initialisation) rules',
@@ -44,19 +44,19 @@ CLAIMED = {
             'Trusted: clang AST; ApproxEq/MISSING recognised structurally; role seeds of lsv/layout.py; real arithmetic. A function that is not a plain reduction (running recurrences, early exits) is ANALYSIS-BROKEN, never a pass.',
             'DESIGN.md 2/E5,E7, 3/C15, 10.6 (E14)'),
     'C08': ('offsets', 'other', 'affine-offset abstract interpretation (every small integer = class index + polynomial in class_start, branch-sensitive) checked at label/index comparisons, label stores and per-class subscripts; def-use rules dead-input and overwritten-store',
-            'Decides the label/index clause for both numbering conventions (a returned label is index + class_start, every per-class array is subscripted by an index, comparisons pair a label with index + class_start), the arg-max search compares against an element of the score row or a true lower bound and the input-relevance clause of the one-vs-rest statistics (both label vectors reach the ROC inputs). Priors, means, arg-max optimality, affine invariance and AUC values are NOT decided.',
+            'Decides the label/index clause for both numbering conventions (a returned label is index + class_start, every per-class array is subscripted by an index, comparisons pair a label with index + class_start), the arg-max search compares against an element of the score row or a true lower bound and the input-relevance clause of the one-vs-rest statistics (both label vectors reach the ROC inputs); every per-class value appended inside a loop over the classes (priors, means, statistics) depends on the class index (no stale, loop-invariant value). The numeric value of priors and means, arg-max optimality, affine invariance and AUC values are NOT decided.',
             'Trusted: clang AST; class_start in {0,1}; label containers seeded by parameter position (LDA/LDAError #1, LDAPrediction #5).',
             'DESIGN.md 2/E8, 3/C08'),
     'C16': ('ioflow', 'other', 'writer/reader agreement by dataflow over the call sites (table literal, codec, model field), stream-grammar abstraction of each (de)serialiser compared structurally, SQL effect classification of the constant strings reaching sqlite3_exec/prepare with a must-precede (truncate-before-insert) check, mod/ref purity of the writers, format-precision check',
-            'Decides: same tables/codecs/fields on both sides and every container field persisted (one open known finding: PCAMODEL.dmodx); serialiser and deserialiser consume the same grammar and the serialiser allocates what it emits; the history clause as "every write first empties what it fills"; writers do not modify the model; >= 15 fractional digits. SQLite behaviour, text->double rounding and prediction equality after reload are NOT decided.',
+            'Decides: same tables/codecs/fields on both sides and every container field persisted (one open known finding: PCAMODEL.dmodx); serialiser and deserialiser consume the same grammar and the serialiser allocates what it emits; the history clause as "every write first empties what it fills"; writers do not modify the model; >= 15 fractional digits; SQL text is built in storage sized from its formatted length; no connection-lifetime lock is combined with a statement that may stay unfinalized at close (a read would leave the file locked and later writes would fail silently). Other SQLite behaviour, text->double rounding and prediction equality after reload are NOT decided.',
             'Trusted: clang AST; SQL reaches the database only through sqlite3_exec / sqlite3_prepare_v2+step with constant format strings (anything else is classified OTHER and cannot discharge the truncate rule).',
             'DESIGN.md 2/E9, 3/C16'),
     'C05': ('cv', 'other', 'control-dependence partition analysis of the split code with derived train/test/selector roles, followed by dataflow into the 8 workers (no-leak), selector-consistency by polynomial equality, learner-dispatch exhaustiveness across sibling routines, create/join pairing, predicate dataflow for the rejection-sampling store, index-role typing of the residual columns',
-            'Decides the structural clauses: split is a partition by construction, held-out selector == placement selector, fit sees only training data and the held-out response is never used, every learner is dispatched and every thread joined, ids are stored only when fresh, residuals pair matching columns. Equality with an independently refitted model, finiteness, and that the random group matrix is a permutation at value level are NOT decided.',
+            'Decides the structural clauses: split is a partition by construction, held-out selector == placement selector, fit sees only training data and the held-out response is never used, every learner is dispatched and every thread joined, ids are stored only when fresh, residuals pair matching columns, per-worker prediction accumulators are fresh for every batch of bootstrap iterations (the reported value is the plain mean of the per-iteration predictions). Equality with an independently refitted model, finiteness, and that the random group matrix is a permutation at value level are NOT decided.',
             'Trusted: clang AST; roles derived from kfold_group_train_test_split control dependence; fit entry points PLS/MLR/EPLS/LDA take (x, y) first. A worker or split routine the rules cannot bind is ANALYSIS-BROKEN.',
             'DESIGN.md 2/E5-E6, 3/C05'),
-    'C03': ('layout', 'other', 'index-role typing (a units-of-measure style dataflow over extents q, A, q*A and the indices ranging over them) checked at every subscript, column composition, column decomposition and column append',
-            'Decides only the column-layout clause: residual/recalculated/prediction matrices with q*A columns are produced and consumed LV-major, so column c is always paired with response c mod q. Orthogonality, re-projection and the values of the fitted responses are NOT decided.',
+    'C03': ('layout', 'other', 'index-role typing (a units-of-measure style dataflow over extents q, A, q*A and the indices ranging over them) checked at every subscript, column composition, column decomposition and column append; sibling cross-check of the fit/apply preprocessing branches; comparison-idiom rule on stored scalings; zeroed-output typestate for accumulating kernels',
+            'Decides the column-layout clause (matrices with q*A columns are produced and consumed LV-major, column c paired with response c mod q) and structural necessary conditions of the re-projection / back-transform clauses: the score predictor preprocesses with the model fields the fit filled; the fit and apply branches of MatrixPreprocess store under the same guards and tolerances; stored scalings (which may be negative) are only tested with the two-sided ApproxEq idiom, so the y back-transform is not skipped for some columns; every product kernel called in pls.c receives an output that was zeroed since it was last written. Orthogonality, the deflation arithmetic and the values of the fitted responses are NOT decided.',
             'Trusted: clang AST; the role seeds (struct fields and public parameter positions, DESIGN.md Appendix A). A subscript whose roles cannot be inferred is counted as undecided, never as a violation.',
             'DESIGN.md 2/E5, 3/C03'),
     'C18': ('loopterm', 'other', 'termination certificates: per-loop ranking argument over the structured AST (constant-step counter on every path, loop-invariant bound with callee mod summaries, capped exits incl. callee "returns non-zero when a>b" summaries) for all loops reachable in the call graph from the fitting roots',
